@@ -148,7 +148,8 @@ MUST_RECOGNISE = ("binop", "binop-scalar", "binop-same", "where", "math", "reduc
 
 MUTATIONS = ("permute-subscript", "offset-subscript", "reverse-subscript", "constant-subscript",
              "extra-operand", "redn-lower-bound-1", "redn-upper-bound-minus-1", "rename-binding",
-             "swap-operands-of-subscripts", "wrap-in-neg", "duplicate-index", "extra-reduction-variable")
+             "swap-operands-of-subscripts", "wrap-in-neg", "duplicate-index", "extra-reduction-variable",
+             "extra-output-axis")
 
 
 def _map_children(e, f):
@@ -291,6 +292,16 @@ def mutate(il, kind):  # noqa: C901
             nb = dict(e.bounds)
             nb["_r9"] = (0, 2)
             out.append(("unused reduction variable _r9 in [0,2)", Reduce(e.inner_expr, e.op, constantdict(nb)), None))
+    elif kind == "extra-output-axis":
+        # the same expression as the value of a *larger* lambda: a new leading / trailing output axis of length 2 that no
+        # operand spans (the lambda is "operation, then broadcast": not the operation)
+        if all(isinstance(d, int) for d in il.shape) and not isinstance(e, Reduce):
+            def shift(x):
+                if isinstance(x, p.Variable) and x.name.startswith("_") and x.name[1:].isdigit():
+                    return p.Variable(f"_{int(x.name[1:]) + 1}")
+                return _map_children(x, shift)
+            out.append(("new leading axis of length 2", shift(e), {"__shape__": (2, *il.shape)}))
+            out.append(("new trailing axis of length 2", e, {"__shape__": (*il.shape, 2)}))
     elif kind == "wrap-in-neg":
         if il.dtype.kind in "fic" and not isinstance(e, Reduce):
             out.append(("negated", p.Product((-1, e)), None))
@@ -321,18 +332,18 @@ def eval_hlo(hlo, shape, val_of):  # noqa: C901
                  B.POWER: np.power, B.MOD: np.remainder, B.LESS: np.less, B.LESS_EQUAL: np.less_equal,
                  B.GREATER: np.greater, B.GREATER_EQUAL: np.greater_equal, B.EQUAL: np.equal,
                  B.NOT_EQUAL: np.not_equal}[hlo.binary_op]
-            return np.broadcast_to(f(v(hlo.x1), v(hlo.x2)), shape)
+            return np.asarray(f(v(hlo.x1), v(hlo.x2)))      # (the operation's own NumPy shape: it must be the lambda's)
         if isinstance(hlo, R.C99CallOp):
             from vf.scalar_interp import C99
-            return np.broadcast_to(C99[hlo.function](*[v(a) for a in hlo.args]), shape)
+            return np.asarray(C99[hlo.function](*[v(a) for a in hlo.args]))
         if isinstance(hlo, R.WhereOp):
-            return np.broadcast_to(np.where(v(hlo.condition), v(hlo.then), v(hlo.else_)), shape)
+            return np.asarray(np.where(v(hlo.condition), v(hlo.then), v(hlo.else_)))
         if isinstance(hlo, R.BroadcastOp):
             return np.broadcast_to(v(hlo.x), shape)
         if isinstance(hlo, R.LogicalNotOp):
-            return np.broadcast_to(np.logical_not(v(hlo.x)), shape)
+            return np.asarray(np.logical_not(v(hlo.x)))
         if isinstance(hlo, R.ZerosLikeOp):
-            return np.zeros(shape, np.asarray(v(hlo.x)).dtype)
+            return np.zeros_like(np.asarray(v(hlo.x)))
         if isinstance(hlo, R.ReduceOp):
             f = {red.SumReductionOperation: np.sum, red.ProductReductionOperation: np.prod,
                  red.MaxReductionOperation: np.amax, red.MinReductionOperation: np.amin,
@@ -472,10 +483,15 @@ def run_case(case):  # noqa: C901
                 continue
             for i, (descr, mexpr, mbind) in enumerate(muts):
                 from constantdict import constantdict
+                mshape, maxes = node.shape, node.axes
+                if isinstance(mbind, dict) and "__shape__" in mbind:
+                    mshape = mbind["__shape__"]
+                    maxes = tuple(pt.Axis(frozenset()) for _ in mshape)
+                    mbind = None
                 try:
-                    mil = pt.IndexLambda(expr=mexpr, shape=node.shape, dtype=node.dtype,
+                    mil = pt.IndexLambda(expr=mexpr, shape=mshape, dtype=node.dtype,
                                          bindings=constantdict(mbind if mbind is not None else node.bindings),
-                                         axes=node.axes, tags=node.tags,
+                                         axes=maxes, tags=node.tags,
                                          non_equality_tags=node.non_equality_tags,
                                          var_to_reduction_descr=node.var_to_reduction_descr)
                 except Exception:  # noqa: BLE001
